@@ -283,10 +283,11 @@ func dispatch(reqT, respT [256]string) {
 					r.Violation(fmt.Sprintf("dispatch:naming:%02x:%s", code, suffix), fmt.Sprintf("code %#02x (%s) %s: factory yields %s, naming rule says %s", code, name, suffix, want, byName), nil)
 				}
 			}
-			for _, fl := range []uint8{0x00, 0x18, 0x7F} {
-				h := refHeader{Command: uint8(code), Flags: fl, MID: 7, TID: 9}
-				if resp {
-					h.Flags |= 0x80
+			for vi, hv := range dispatchHeaders(uint8(code), resp) {
+				h := hv
+				fl := h.Flags &^ 0x80
+				if vi > 0 {
+					fl = 0xEE // only the first variant counts a (code, reply) pair as dispatched
 				}
 				wire := append(h.encode(), 0, 0, 0)
 				m := message.NewMessage()
@@ -344,6 +345,61 @@ func dispatch(reqT, respT [256]string) {
 	r.Extra("dispatch_pairs_total", 512)
 }
 
+// dispatchHeaders: the header assignments each (code, reply) cell is decoded under. The type a
+// message decodes to is designated by the command code and the reply flag alone, so every other
+// header field is varied over its boundary values (and seeded random values).
+func dispatchHeaders(code uint8, resp bool) []refHeader {
+	base := refHeader{Command: code, MID: 7, TID: 9}
+	hs := []refHeader{base}
+	for _, fl := range []uint8{0x18, 0x7F} {
+		h := base
+		h.Flags = fl
+		hs = append(hs, h)
+	}
+	mod := func(f func(h *refHeader)) {
+		h := refHeader{Command: code}
+		f(&h)
+		hs = append(hs, h)
+	}
+	mod(func(h *refHeader) {})
+	mod(func(h *refHeader) { h.MID = 0xFFFF })
+	mod(func(h *refHeader) { h.MID = 0xFFFE })
+	mod(func(h *refHeader) { h.TID = 0xFFFF })
+	mod(func(h *refHeader) { h.UID = 0xFFFF })
+	mod(func(h *refHeader) { h.UID = 0xFFFE })
+	mod(func(h *refHeader) { h.PIDLow, h.PIDHigh = 0xFFFF, 0xFFFF })
+	mod(func(h *refHeader) { h.PIDLow = 0xFFFE })
+	mod(func(h *refHeader) { h.Status = 0xC0000022 })
+	mod(func(h *refHeader) { h.Status = 0xFFFFFFFF })
+	mod(func(h *refHeader) { h.Status = 0x00020001 }) // a DOS class/code pair
+	mod(func(h *refHeader) { h.Flags2 = 0xFFFF })
+	mod(func(h *refHeader) { h.Flags2 = 0xC000 })
+	mod(func(h *refHeader) { h.Flags2 = 0x0004 })
+	mod(func(h *refHeader) { h.Sec = [8]byte{255, 255, 255, 255, 255, 255, 255, 255} })
+	mod(func(h *refHeader) { h.Reserved = 0xFFFF })
+	mod(func(h *refHeader) {
+		*h = refHeader{Command: code, Status: 0xFFFFFFFF, Flags: 0x7F, Flags2: 0xFFFF, PIDHigh: 0xFFFF, Sec: [8]byte{255, 255, 255, 255, 255, 255, 255, 255}, Reserved: 0xFFFF, TID: 0xFFFF, PIDLow: 0xFFFF, UID: 0xFFFF, MID: 0xFFFF}
+	})
+	rng := r.Rand(fmt.Sprintf("dispatch-hdr|%02x|%v", code, resp))
+	for k := 0; k < r.Pick(3, 40); k++ {
+		mod(func(h *refHeader) {
+			h.Status, h.Flags, h.Flags2 = rng.Uint32(), uint8(rng.Uint32())&0x7F, uint16(rng.Uint32())
+			h.PIDHigh, h.TID, h.PIDLow, h.UID, h.MID = uint16(rng.Uint32()), uint16(rng.Uint32()), uint16(rng.Uint32()), uint16(rng.Uint32()), uint16(rng.Uint32())
+			for i := range h.Sec {
+				h.Sec[i] = byte(rng.Uint32())
+			}
+		})
+	}
+	for i := range hs {
+		if resp {
+			hs[i].Flags |= 0x80
+		} else {
+			hs[i].Flags &^= 0x80
+		}
+	}
+	return hs
+}
+
 // framing: message length = 32 + 1 + 2*wc + 2 + bc; repeatable; decodes to the same header/type.
 func framing(structs []smbgen.Struct) {
 	for _, s := range structs {
@@ -359,6 +415,19 @@ func framing(structs []smbgen.Struct) {
 			c := s.New()
 			smbgen.Fill(c, rels, rng, mode, maxLen)
 			smbgen.AlignPads(c, rels)
+			if maxLen < 0 {
+				// steer the data block to the top of the 16-bit byte count
+				var b0 []byte
+				var e0 error
+				if p0, _, _ := mon.Guard(func() { b0, e0 = c.Marshal() }); !p0 && e0 == nil {
+					if _, d0, ok := smbgen.Blocks(b0); ok && len(d0) >= 32760 {
+						target := []int{65535, 65534, 65500, 65499, 65498, 49152}[(it/7)%6]
+						if smbgen.Grow(c, rels, target-len(d0)) {
+							r.Count("big_data_blocks_steered", 1)
+						}
+					}
+				}
+			}
 			m := message.NewMessage()
 			m.Header.MID = uint16(rng.Uint32())
 			m.Header.TID = uint16(rng.Uint32())
@@ -508,6 +577,7 @@ func main() {
 	headers()
 	dispatch(reqT, respT)
 	framing(structs)
+	blockSequences()
 	concurrentCallers(structs)
 	r.SetExhaustive(false)
 	r.Finish()
